@@ -29,12 +29,12 @@ FP = ["ldb_do_compaction_work.function_pointer_call.1/vp_in_first",
       "ldb_iter_clear.function_pointer_call.3/cleanup_iter_state"]
 
 
-def _one(prefix, n, snaps=2, faults=1, imm=0, env=1, nofree=0, tier="quick", timeout=600):
+def _one(prefix, n, snaps=2, faults=1, imm=0, env=1, nofree=0, ptr=1, seqbits=56, tier="quick", timeout=600):
     cap = 1
     while cap < n:
         cap = (cap * 3) // 2 + (1 if cap <= 1 else 0)   # growth policy of util/vector.c
-    defs = {"VP_N": n, "VP_SNAPS": snaps, "VP_FAULTS": faults, "VP_IMM": imm, "VP_ENV": env, "VP_VEC_CAP": cap, "VP_NOFREE": nofree}
-    name = "%s.compaction-n%d-snaps%d-faults%d-imm%d-env%d%s" % (prefix, n, snaps, faults, imm, env, "-nofree" if nofree else "")
+    defs = {"VP_N": n, "VP_SNAPS": snaps, "VP_FAULTS": faults, "VP_IMM": imm, "VP_ENV": env, "VP_VEC_CAP": cap, "VP_NOFREE": nofree, "VP_SEQBITS": seqbits}
+    name = "%s.compaction-n%d-snaps%d-faults%d-imm%d-env%d%s" % (prefix, n, snaps, faults, imm, env, ("-nofree" if nofree else "") + ("" if ptr else "-noptr") + ("" if seqbits == 56 else "-seq%d" % seqbits))
     uw = {"memcpy.0": 10, "memcmp.0": 2,
           "ldb_do_compaction_work.0": n + 1, "ldb_do_compaction_work.1": 2, "ldb_do_compaction_work.2": 3,
           "ldb_do_compaction_work.3": n + 1, "ldb_install_compaction_results.0": n + 1,
@@ -42,7 +42,9 @@ def _one(prefix, n, snaps=2, faults=1, imm=0, env=1, nofree=0, tier="quick", tim
     return Obl(name, "dbimpl/compact.c", real=REAL, include_real=INC_REAL, kit=KIT, defs=defs,
                unwind=max(n + 3, 10), unwindset=uw, restrict_fp=FP,
                remove_bodies=["ldb_compact_memtable"],
-               tier=tier, timeout=timeout, functions=FUNCS, flags=["--slice-formula"],
+               tier=tier, timeout=timeout, functions=FUNCS,
+               flags=["--slice-formula"] + ([] if ptr else ["--no-pointer-check", "--no-pointer-primitive-check"]),
+               no_flags=[] if ptr else ["--pointer-overflow-check"],
                desc="TODO", bounds="TODO")
 
 
@@ -55,4 +57,7 @@ def compaction_obls(prefix):
     out.append(_one(prefix, 2, imm=1))
     out.append(_one(prefix, 3, faults=0, nofree=1))
     out.append(_one(prefix, 4, faults=0, nofree=1))
+    out.append(_one(prefix, 3, faults=0, nofree=1, ptr=0))
+    out.append(_one(prefix, 4, faults=0, nofree=1, ptr=0))
+    out.append(_one(prefix, 4, faults=0, nofree=1, ptr=0, seqbits=16))
     return out
